@@ -217,3 +217,7 @@ var propC13 = &propDef{id: "C13", oracles: []oracleFn{oracleC13}, scenarios: c13
 func init() { propC13.post = twinC13(propC13) }
 
 func TestVerifC13(t *testing.T) { runProp(t, propC13) }
+
+var propC11 = &propDef{id: "C11", oracles: []oracleFn{oracleC11}, scenarios: c11Scenarios}
+
+func TestVerifC11(t *testing.T) { runProp(t, propC11) }
